@@ -22,6 +22,12 @@ def pivot():
         lits = ["s%d" % n, "mid%d" % n, "longest%d" % n]
         kinds = [dict(), dict(fields=[Field("u8")]), dict(fields=[Field("u16", name="x")], named=True)]
         vs.append(U("P%d" % n, serialize=[lits[i] for i in perm], **kinds[n % 3]))
+    S.append(EnumSpec("UniUpper", [U("Gr\u00f6\u00dfe"), U("Z\u00fcrich", fields=[Field("u8")]), U("Plain"), U("\u00c9cu", fields=[Field("u16", name="x")], named=True)],
+                      serialize_all="UPPERCASE", prefix="k:", note="non-ASCII identifiers under UPPERCASE (sharp s expands to SS)"))
+    S.append(EnumSpec("UniLower", [U("\u00c9COLE"), U("\u00c0LaCarte", fields=[Field("u8")]), U("Plain")], serialize_all="lowercase",
+                      note="non-ASCII identifiers under lowercase"))
+    S.append(EnumSpec("DupNames", [U("Add"), U("Plus", serialize=["+", "add"]), U("Sub", fields=[Field("u8")]), U("Minus", to_string="sub"), U("Last")],
+                      serialize_all="kebab-case", prefix="op/", note="two variants whose canonical names coincide (each list still has one entry per variant, in order)"))
     S.append(EnumSpec("ViaMacro", [U("Red", serialize=["r", "red"]), U("Blue", fields=[Field("u8")], to_string="blu", serialize=["b"]),
                                    U("Green", fields=[Field("u16", name="x")], named=True), U("Longer", serialize=["lo", "longer-one"])],
                       macro_args=[("s", "literal", '"red"'), ("b", "literal", '"blu"'), ("t", "ty", "u16"), ("l", "literal", '"longer-one"')], macro_replace=True,
